@@ -1,13 +1,794 @@
-//! C12 — stub (not built yet; not registered in MANIFEST.json).
-use super::*;
+//! C12 — a saved file contains only content of the workbook being saved.
+//!
+//! Histories over a family of workbook objects (W0, clones of members, reloaded files).
+//! Every string ever written into a cell is a unique ASCII token `tokNNNNx`, so the set of
+//! strings stored anywhere in a written package can be found by a raw scan of every
+//! decompressed part, and compared with the set of tokens reachable from the workbook that
+//! was saved (tracked by the harness's own model of the history).
+//!
+//! Oracle at every save (statement of C12, sentence by sentence):
+//!  * "the text stored in a written file is exactly the text reachable from the workbook":
+//!    tokens found in the package == tokens of the member's model; and, resolved through an
+//!    independent decoder (quick-xml over sheetN.xml + sharedStrings.xml, no library code),
+//!    every cell of the file shows the token the model has at that position;
+//!  * "strings that were overwritten or deleted ..., only ever existed in another workbook
+//!    object ..., registered by an earlier save do not appear": an extra token is classified
+//!    by how it left (or never entered) the member's model -> finding key;
+//!  * "saving twice in a row gives the same content both times": second save has the same
+//!    token set, the same decoded cells and the same `count`/`uniqueCount` of `<sst>`.
+use super::Prop;
+use crate::engine::*;
+use proptest::prelude::*;
+use quick_xml::events::Event;
+use serde::{Deserialize, Serialize};
+use std::collections::{BTreeMap, BTreeSet};
+use std::io::{Cursor, Read};
+use umya_spreadsheet::{reader, writer, RichText, Spreadsheet, TextElement};
 
 pub fn prop() -> Prop {
     Prop {
         id: "C12",
-        describe: |_| {},
-        subs: no_subs,
-        extra: no_extra,
-        replay_extra: no_replay_extra,
+        describe,
+        subs,
+        extra: super::no_extra,
+        replay_extra: super::no_replay_extra,
         watchdog_s: (900, 7200),
     }
+}
+
+fn describe(ctx: &Ctx) {
+    ctx.rule("histories of 1..30 steps over a family of workbook objects (W0 = new_file, clones of any member, files reloaded eagerly or — sub-check `lazy` — lazily): set / overwrite / delete cell text (plain, guessed or rich text; every string a unique token tokNNNNx), remove rows, remove / add sheets, clone, save any member (twice, to memory), reload a saved file as a new member. Non-trivial = at some save a token had been overwritten/deleted/removed from that member, or a token existed only in another member, or a member sharing its origin had been saved (or loaded) before; distinct by the whole history");
+    ctx.assume("tokens are plain ASCII and unique, so a byte scan of every decompressed part finds every stored occurrence (no XML escaping, no splitting: rich-text tokens sit in a single run)");
+    ctx.assume("rows are removed through Worksheet::remove_row on small grids without formulas (Spreadsheet-level removal is C07's subject)");
+    ctx.assume("the independent decoder assumes the part naming of the library's own writer (xl/worksheets/sheetN.xml in workbook order, xl/sharedStrings.xml); it is only ever applied to files the library wrote");
+}
+
+// ---------------------------------------------------------------------------------------
+// package inspection (shared with C16)
+
+/// All parts of a zip package, decompressed, by name (directory entries skipped).
+pub fn unzip_parts(bytes: &[u8]) -> Result<BTreeMap<String, Vec<u8>>, String> {
+    let mut arv = zip::ZipArchive::new(Cursor::new(bytes)).map_err(|e| format!("zip: {}", e))?;
+    let mut out = BTreeMap::new();
+    for i in 0..arv.len() {
+        let mut f = arv.by_index(i).map_err(|e| format!("zip entry {}: {}", i, e))?;
+        if f.is_dir() {
+            continue;
+        }
+        let name = f.name().to_string();
+        let mut data = Vec::new();
+        f.read_to_end(&mut data).map_err(|e| format!("zip read {}: {}", name, e))?;
+        out.insert(name, data);
+    }
+    Ok(out)
+}
+
+pub fn token(n: u32) -> String {
+    format!("tok{:04}x", n)
+}
+
+/// Every `tokNNNNx` occurring in any part (name or content) -> the parts it occurs in.
+pub fn scan_tokens(parts: &BTreeMap<String, Vec<u8>>) -> BTreeMap<String, BTreeSet<String>> {
+    let mut out: BTreeMap<String, BTreeSet<String>> = BTreeMap::new();
+    let mut scan = |hay: &[u8], part: &str| {
+        let mut i = 0;
+        while i + 8 <= hay.len() {
+            if &hay[i..i + 3] == b"tok" && hay[i + 3..i + 7].iter().all(|b| b.is_ascii_digit()) && hay[i + 7] == b'x' {
+                let t = String::from_utf8_lossy(&hay[i..i + 8]).to_string();
+                out.entry(t).or_default().insert(part.to_string());
+                i += 8;
+            } else {
+                i += 1;
+            }
+        }
+    };
+    for (name, data) in parts {
+        scan(name.as_bytes(), name);
+        scan(data, name);
+    }
+    out
+}
+
+/// `count` / `uniqueCount` of `<sst>`; None if the package has no sharedStrings part.
+pub fn sst_counts(parts: &BTreeMap<String, Vec<u8>>) -> Option<(Option<u64>, Option<u64>)> {
+    let data = parts.get("xl/sharedStrings.xml")?;
+    let text = String::from_utf8_lossy(data);
+    let start = text.find("<sst")?;
+    let end = text[start..].find('>')? + start;
+    let tag = &text[start..end];
+    let attr = |name: &str| -> Option<u64> {
+        let pat = format!(" {}=\"", name);
+        let p = tag.find(&pat)? + pat.len();
+        let q = tag[p..].find('"')? + p;
+        tag[p..q].parse().ok()
+    };
+    Some((attr("count"), attr("uniqueCount")))
+}
+
+fn attr_of(e: &quick_xml::events::BytesStart, name: &[u8]) -> Option<String> {
+    for a in e.attributes().with_checks(false).flatten() {
+        if a.key.as_ref() == name {
+            return a.unescape_value().ok().map(|v| v.to_string());
+        }
+    }
+    None
+}
+
+/// Strings of sharedStrings.xml by index: concatenation of the `<t>` of an `<si>` outside `<rPh>`.
+pub fn decode_sst(data: &[u8]) -> Result<Vec<String>, String> {
+    let text = std::str::from_utf8(data).map_err(|e| format!("sharedStrings not utf-8: {}", e))?;
+    let mut rd = quick_xml::Reader::from_str(text);
+    let mut out = Vec::new();
+    let (mut in_si, mut in_t, mut in_rph) = (false, false, false);
+    let mut cur = String::new();
+    loop {
+        match rd.read_event() {
+            Ok(Event::Start(e)) => match e.local_name().as_ref() {
+                b"si" => {
+                    in_si = true;
+                    cur.clear();
+                }
+                b"t" => in_t = in_si && !in_rph,
+                b"rPh" => in_rph = true,
+                _ => {}
+            },
+            Ok(Event::Empty(e)) => {
+                if e.local_name().as_ref() == b"si" {
+                    out.push(String::new());
+                }
+            }
+            Ok(Event::Text(t)) => {
+                if in_t {
+                    cur.push_str(&t.unescape().map_err(|e| format!("sst text: {}", e))?);
+                }
+            }
+            Ok(Event::End(e)) => match e.local_name().as_ref() {
+                b"si" => {
+                    in_si = false;
+                    out.push(cur.clone());
+                }
+                b"t" => in_t = false,
+                b"rPh" => in_rph = false,
+                _ => {}
+            },
+            Ok(Event::Eof) => break,
+            Err(e) => return Err(format!("sharedStrings.xml: {}", e)),
+            _ => {}
+        }
+    }
+    Ok(out)
+}
+
+fn parse_ref(r: &str) -> Option<(u32, u32)> {
+    let mut col = 0u32;
+    let mut row = 0u32;
+    for ch in r.chars() {
+        if ch.is_ascii_alphabetic() {
+            col = col * 26 + (ch.to_ascii_uppercase() as u32 - 'A' as u32 + 1);
+        } else if ch.is_ascii_digit() {
+            row = row * 10 + (ch as u32 - '0' as u32);
+        } else if ch != '$' {
+            return None;
+        }
+    }
+    if col == 0 || row == 0 {
+        None
+    } else {
+        Some((row, col))
+    }
+}
+
+/// One decoded cell: (kind, text) where kind is the `t` attribute ("n" if absent) and text
+/// is the shared string / inline string / `<v>` content.
+pub type DecodedSheet = BTreeMap<(u32, u32), (String, String)>;
+
+pub fn decode_sheet(data: &[u8], sst: &[String]) -> Result<DecodedSheet, String> {
+    let text = std::str::from_utf8(data).map_err(|e| format!("sheet not utf-8: {}", e))?;
+    let mut rd = quick_xml::Reader::from_str(text);
+    let mut out = DecodedSheet::new();
+    let mut cur: Option<((u32, u32), String)> = None;
+    let (mut in_v, mut in_is_t) = (false, false);
+    let mut val = String::new();
+    let mut have_val = false;
+    loop {
+        match rd.read_event() {
+            Ok(Event::Start(e)) => match e.local_name().as_ref() {
+                b"c" => {
+                    let r = attr_of(&e, b"r").ok_or("cell without r")?;
+                    let pos = parse_ref(&r).ok_or(format!("bad cell ref {}", r))?;
+                    cur = Some((pos, attr_of(&e, b"t").unwrap_or_else(|| "n".into())));
+                    val.clear();
+                    have_val = false;
+                }
+                b"v" => {
+                    in_v = cur.is_some();
+                    have_val = true;
+                }
+                b"t" => {
+                    in_is_t = cur.is_some();
+                    have_val = true;
+                }
+                _ => {}
+            },
+            Ok(Event::Text(t)) => {
+                if in_v || in_is_t {
+                    val.push_str(&t.unescape().map_err(|e| format!("cell text: {}", e))?);
+                }
+            }
+            Ok(Event::End(e)) => match e.local_name().as_ref() {
+                b"v" => in_v = false,
+                b"t" => in_is_t = false,
+                b"c" => {
+                    if let Some((pos, kind)) = cur.take() {
+                        if have_val {
+                            let text = if kind == "s" {
+                                let idx: usize = val.trim().parse().map_err(|_| format!("shared string index {:?} is not a number", val))?;
+                                match sst.get(idx) {
+                                    Some(s) => s.clone(),
+                                    None => return Err(format!("cell {:?} refers to shared string {} but the table has {}", pos, idx, sst.len())),
+                                }
+                            } else {
+                                val.clone()
+                            };
+                            if out.insert(pos, (kind, text)).is_some() {
+                                return Err(format!("cell {:?} occurs twice", pos));
+                            }
+                        }
+                    }
+                }
+                _ => {}
+            },
+            Ok(Event::Eof) => break,
+            Err(e) => return Err(format!("sheet xml: {}", e)),
+            _ => {}
+        }
+    }
+    Ok(out)
+}
+
+/// Independent decode of a library-written package: sheets in workbook order as
+/// (name, cells).  Err = the package is not decodable (dangling shared-string index, ...).
+pub fn decode_package(parts: &BTreeMap<String, Vec<u8>>) -> Result<Vec<(String, DecodedSheet)>, String> {
+    let wb = parts.get("xl/workbook.xml").ok_or("no xl/workbook.xml")?;
+    let text = std::str::from_utf8(wb).map_err(|e| format!("workbook not utf-8: {}", e))?;
+    let mut rd = quick_xml::Reader::from_str(text);
+    let mut names = Vec::new();
+    loop {
+        match rd.read_event() {
+            Ok(Event::Start(e)) | Ok(Event::Empty(e)) => {
+                if e.local_name().as_ref() == b"sheet" {
+                    names.push(attr_of(&e, b"name").unwrap_or_default());
+                }
+            }
+            Ok(Event::Eof) => break,
+            Err(e) => return Err(format!("workbook.xml: {}", e)),
+            _ => {}
+        }
+    }
+    let sst = match parts.get("xl/sharedStrings.xml") {
+        Some(d) => decode_sst(d)?,
+        None => Vec::new(),
+    };
+    let mut out = Vec::new();
+    for (i, name) in names.into_iter().enumerate() {
+        let part = format!("xl/worksheets/sheet{}.xml", i + 1);
+        let data = parts.get(&part).ok_or(format!("missing part {}", part))?;
+        out.push((name, decode_sheet(data, &sst).map_err(|e| format!("{}: {}", part, e))?));
+    }
+    Ok(out)
+}
+
+pub fn save_to_vec(wb: &Spreadsheet) -> Result<Result<Vec<u8>, String>, PanicInfo> {
+    guard(|| {
+        let mut buf: Vec<u8> = Vec::new();
+        writer::xlsx::write_writer(wb, &mut buf).map(|_| buf).map_err(|e| format!("{:?}", e))
+    })
+}
+
+// ---------------------------------------------------------------------------------------
+// case
+
+#[derive(Debug, Clone, Serialize, Deserialize)]
+pub enum Step {
+    /// put a fresh token into (sheet, col, row); kind 0 = set_value_string, 1 = set_value, 2 = rich text
+    Set { m: u16, sheet: u16, col: u8, row: u8, kind: u8 },
+    /// replace the text of an existing text cell (pick) by a fresh token
+    Overwrite { m: u16, pick: u16, kind: u8 },
+    /// delete the text of an existing text cell; how 0 = remove_cell, 1 = set_blank, 2 = set_value_number
+    Delete { m: u16, pick: u16, how: u8 },
+    RemoveRow { m: u16, sheet: u16, row: u8, n: u8 },
+    RemoveSheet { m: u16, sheet: u16 },
+    AddSheet { m: u16 },
+    CloneWb { m: u16 },
+    Save { m: u16 },
+    /// save member m and read the bytes back as a new member
+    Reload { m: u16, lazy: bool },
+}
+
+#[derive(Debug, Clone, Serialize, Deserialize)]
+pub struct History {
+    pub steps: Vec<Step>,
+}
+
+const MAX_MEMBERS: usize = 6;
+const MAX_SHEETS: usize = 4;
+
+fn step_strategy(lazy_ok: bool) -> BoxedStrategy<Step> {
+    let lazy = if lazy_ok { prop::bool::weighted(0.7).boxed() } else { Just(false).boxed() };
+    prop_oneof![
+        6 => (any::<u16>(), any::<u16>(), 1u8..=3, 1u8..=5, 0u8..=2).prop_map(|(m, sheet, col, row, kind)| Step::Set { m, sheet, col, row, kind }),
+        4 => (any::<u16>(), any::<u16>(), 0u8..=2).prop_map(|(m, pick, kind)| Step::Overwrite { m, pick, kind }),
+        3 => (any::<u16>(), any::<u16>(), 0u8..=2).prop_map(|(m, pick, how)| Step::Delete { m, pick, how }),
+        1 => (any::<u16>(), any::<u16>(), 1u8..=5, 1u8..=2).prop_map(|(m, sheet, row, n)| Step::RemoveRow { m, sheet, row, n }),
+        1 => (any::<u16>(), any::<u16>()).prop_map(|(m, sheet)| Step::RemoveSheet { m, sheet }),
+        1 => any::<u16>().prop_map(|m| Step::AddSheet { m }),
+        2 => any::<u16>().prop_map(|m| Step::CloneWb { m }),
+        4 => any::<u16>().prop_map(|m| Step::Save { m }),
+        2 => (any::<u16>(), lazy).prop_map(|(m, lazy)| Step::Reload { m, lazy }),
+    ]
+    .boxed()
+}
+
+fn history_strategy(tier: Tier, lazy_ok: bool) -> BoxedStrategy<History> {
+    let max = tier.pick(30usize, 30usize);
+    (prop::collection::vec(step_strategy(lazy_ok), 1..=max), any::<u16>())
+        .prop_map(|(mut steps, last)| {
+            // a history that never saves decides nothing: end with a save
+            if !matches!(steps.last(), Some(Step::Save { .. }) | Some(Step::Reload { .. })) {
+                if steps.len() >= 30 {
+                    steps.pop();
+                }
+                steps.push(Step::Save { m: last });
+            }
+            History { steps }
+        })
+        .boxed()
+}
+
+fn eager_history(t: Tier) -> BoxedStrategy<History> {
+    history_strategy(t, false)
+}
+fn lazy_history(t: Tier) -> BoxedStrategy<History> {
+    history_strategy(t, true)
+}
+
+fn subs() -> Vec<Box<dyn DynSub>> {
+    vec![
+        Box::new(Sub { name: "history", strategy: eager_history, cases: (500, 12000), check: check_eager, max_shrink_iters: 6000 }),
+        Box::new(Sub { name: "lazy", strategy: lazy_history, cases: (200, 4000), check: check_lazy, max_shrink_iters: 6000 }),
+    ]
+}
+
+// ---------------------------------------------------------------------------------------
+// model
+
+#[derive(Clone, Debug)]
+struct SheetM {
+    name: String,
+    /// (row, col) -> token
+    cells: BTreeMap<(u32, u32), String>,
+    /// still an unloaded (raw) sheet of a lazily read member
+    raw: bool,
+}
+
+struct Member {
+    wb: Spreadsheet,
+    sheets: Vec<SheetM>,
+    /// tokens that left this member's model (or its ancestors' before the clone/reload) -> how
+    lost: BTreeMap<String, &'static str>,
+    /// tokens stored in the file this member (or the member it was cloned from) was read from
+    loaded: BTreeSet<String>,
+    /// members that descend from one another by `clone` (share whatever clones share)
+    origin: usize,
+    how_made: &'static str,
+}
+
+impl Member {
+    fn tokens(&self) -> BTreeSet<String> {
+        self.sheets.iter().flat_map(|s| s.cells.values().cloned()).collect()
+    }
+    fn text_cells(&self) -> Vec<(usize, (u32, u32))> {
+        let mut v = Vec::new();
+        for (si, s) in self.sheets.iter().enumerate() {
+            for pos in s.cells.keys() {
+                v.push((si, *pos));
+            }
+        }
+        v
+    }
+    fn has_raw(&self) -> bool {
+        self.sheets.iter().any(|s| s.raw)
+    }
+}
+
+fn put_text(wb: &mut Spreadsheet, si: usize, pos: (u32, u32), text: &str, kind: u8) {
+    let ws = wb.get_sheet_mut(&si).expect("sheet index in range");
+    let cell = ws.get_cell_mut((pos.1, pos.0));
+    match kind {
+        0 => {
+            cell.set_value_string(text);
+        }
+        1 => {
+            cell.set_value(text);
+        }
+        _ => {
+            let mut te = TextElement::default();
+            te.set_text(text);
+            te.get_font_mut().set_bold(true);
+            let mut rt = RichText::default();
+            rt.add_rich_text_elements(te);
+            cell.set_rich_text(rt);
+        }
+    }
+}
+
+struct SaveOutcome {
+    bytes: Vec<u8>,
+    /// a difference in the `<sst>` counters of two successive saves: reported only if the
+    /// history shows no discrepancy in the stored strings themselves (which says more)
+    counters: Option<Verdict>,
+}
+
+/// The oracle of one save of member `mi`.  Ok(bytes of the first save) or the failure.
+fn judge_save(members: &[Member], mi: usize, saved_origins: &BTreeSet<usize>, obs: &mut Obs) -> Result<SaveOutcome, Verdict> {
+    let m = &members[mi];
+    let expected = m.tokens();
+    // non-triviality (DESIGN C12 NT)
+    let foreign = members.iter().enumerate().any(|(j, o)| j != mi && o.tokens().iter().any(|t| !expected.contains(t)));
+    let nt = !m.lost.is_empty() || foreign || saved_origins.contains(&m.origin);
+    obs.nontrivial(nt);
+    if !m.lost.is_empty() {
+        obs.class("save/after-token-left-the-model");
+    }
+    if foreign {
+        obs.class("save/other-member-has-own-tokens");
+    }
+    if saved_origins.contains(&m.origin) {
+        obs.class("save/after-earlier-save-or-load");
+    }
+    if m.has_raw() {
+        obs.class("save/with-unloaded-sheet");
+    }
+    let raw_suffix = if m.has_raw() { "-with-unloaded-sheet" } else { "" };
+
+    let first = match save_to_vec(&m.wb) {
+        Err(p) => return Err(Verdict::fail(format!("save/panic:{}", p.site()), format!("member {} ({}): {}", mi, m.how_made, p.short()))),
+        Ok(Err(e)) => return Err(Verdict::fail("save/error", format!("member {}: {}", mi, e))),
+        Ok(Ok(b)) => b,
+    };
+    let parts = unzip_parts(&first).map_err(|e| Verdict::fail("save/not-a-zip", e))?;
+    let found_map = scan_tokens(&parts);
+    let found: BTreeSet<String> = found_map.keys().cloned().collect();
+
+    // 1. nothing reachable is missing
+    let missing: Vec<&String> = expected.difference(&found).collect();
+    if !missing.is_empty() {
+        return Err(Verdict::fail(
+            format!("reachable-string/missing{}", raw_suffix),
+            format!("member {} ({}): tokens {:?} are in the model but nowhere in the package", mi, m.how_made, missing),
+        ));
+    }
+    // 2. every cell shows its own token (independent decoder)
+    let decoded = match decode_package(&parts) {
+        Ok(d) => d,
+        Err(e) => return Err(Verdict::fail(format!("cell-text/undecodable{}", raw_suffix), format!("member {} ({}): {}", mi, m.how_made, e))),
+    };
+    let view = |d: &Vec<(String, DecodedSheet)>| -> Vec<(String, BTreeMap<(u32, u32), String>)> {
+        d.iter()
+            .map(|(n, cells)| (n.clone(), cells.iter().filter(|(_, (_, t))| t.contains("tok")).map(|(p, (_, t))| (*p, t.clone())).collect()))
+            .collect()
+    };
+    let got = view(&decoded);
+    let want: Vec<(String, BTreeMap<(u32, u32), String>)> = m.sheets.iter().map(|s| (s.name.clone(), s.cells.clone())).collect();
+    if got != want {
+        return Err(Verdict::fail(
+            format!("cell-text/differs{}", raw_suffix),
+            format!("member {} ({}): file shows {:?}, model has {:?}", mi, m.how_made, got, want),
+        ));
+    }
+    // 3. nothing else is stored
+    let extra: Vec<&String> = found.difference(&expected).collect();
+    if !extra.is_empty() {
+        let mut classes: BTreeMap<&'static str, Vec<String>> = BTreeMap::new();
+        for t in &extra {
+            let class = match m.lost.get(*t) {
+                // residual of R7 (open): the loaded table is kept whole while a sheet is still unloaded
+                Some(_) if m.has_raw() && m.loaded.contains(*t) => "stale-loaded-string",
+                Some(how) => *how,
+                None => "other-member-string",
+            };
+            classes.entry(class).or_default().push(format!("{} in {:?}", t, found_map[*t]));
+        }
+        // deterministic choice of the reported class
+        let order = ["other-member-string", "removed-sheet-string", "removed-row-string", "deleted-string", "overwritten-string", "stale-loaded-string"];
+        let class = order.iter().find(|c| classes.contains_key(**c)).unwrap();
+        return Err(Verdict::fail(
+            format!("{}/leaks{}", class, raw_suffix),
+            format!("member {} ({}): package stores tokens that are not reachable from the workbook: {:?}", mi, m.how_made, classes),
+        ));
+    }
+    // 4. saving again gives the same
+    let second = match save_to_vec(&m.wb) {
+        Err(p) => return Err(Verdict::fail(format!("double-save/panic:{}", p.site()), p.short())),
+        Ok(Err(e)) => return Err(Verdict::fail("double-save/error", e)),
+        Ok(Ok(b)) => b,
+    };
+    let parts2 = unzip_parts(&second).map_err(|e| Verdict::fail("double-save/not-a-zip", e))?;
+    let found2: BTreeSet<String> = scan_tokens(&parts2).keys().cloned().collect();
+    if found2 != found {
+        return Err(Verdict::fail(
+            format!("double-save/strings-differ{}", raw_suffix),
+            format!("member {}: first save stores {:?}, second {:?}", mi, found, found2),
+        ));
+    }
+    match decode_package(&parts2) {
+        Ok(d2) => {
+            if d2 != decoded {
+                return Err(Verdict::fail(format!("double-save/cells-differ{}", raw_suffix), format!("member {}: {:?} vs {:?}", mi, decoded, d2)));
+            }
+        }
+        Err(e) => return Err(Verdict::fail(format!("double-save/undecodable{}", raw_suffix), e)),
+    }
+    let (c1, c2) = (sst_counts(&parts), sst_counts(&parts2));
+    if c1 != c2 {
+        let key = match (c1, c2) {
+            (Some((a, ua)), Some((b, ub))) if ua == ub && b > a => "double-save/sst-count-grows",
+            (Some((_, ua)), Some((_, ub))) if ua != ub => "double-save/sst-unique-count-differs",
+            _ => "double-save/sst-count-differs",
+        };
+        let v = Verdict::fail(format!("{}{}", key, raw_suffix), format!("member {}: <sst count,uniqueCount> first save {:?}, second save {:?}", mi, c1, c2));
+        return Ok(SaveOutcome { bytes: first, counters: Some(v) });
+    }
+    Ok(SaveOutcome { bytes: first, counters: None })
+}
+
+fn run_history(h: &History, obs: &mut Obs) -> Verdict {
+    let mut next_token = 0u32;
+    let mut next_sheet = 0u32;
+    let mut next_origin = 1usize;
+    let mut fresh = || {
+        next_token += 1;
+        token(next_token)
+    };
+    let mut members: Vec<Member> = vec![Member {
+        wb: umya_spreadsheet::new_file(),
+        sheets: vec![SheetM { name: "Sheet1".into(), cells: BTreeMap::new(), raw: false }],
+        lost: BTreeMap::new(),
+        loaded: BTreeSet::new(),
+        origin: 0,
+        how_made: "new_file",
+    }];
+    // origins (clone families) one of whose members has been saved, or that were loaded from a file
+    let mut saved_origins: BTreeSet<usize> = BTreeSet::new();
+    let (mut saves, mut clones, mut reloads, mut lazies) = (0, 0, 0, 0);
+    let mut pending: Option<Verdict> = None;
+
+    for step in &h.steps {
+        let n = members.len();
+        match *step {
+            Step::Set { m, sheet, col, row, kind } => {
+                let mi = pick_idx(m, n);
+                let mem = &mut members[mi];
+                let si = pick_idx(sheet, mem.sheets.len());
+                let pos = (row as u32, col as u32);
+                let t = fresh();
+                if let Err(p) = guard(|| put_text(&mut mem.wb, si, pos, &t, kind)) {
+                    return Verdict::fail(format!("edit/panic:{}", p.site()), p.short());
+                }
+                mem.sheets[si].raw = false;
+                if let Some(old) = mem.sheets[si].cells.insert(pos, t) {
+                    mem.lost.insert(old, "overwritten-string");
+                }
+            }
+            Step::Overwrite { m, pick, kind } => {
+                let mi = pick_idx(m, n);
+                let mem = &mut members[mi];
+                let cells = mem.text_cells();
+                if cells.is_empty() {
+                    continue;
+                }
+                let (si, pos) = cells[pick_idx(pick, cells.len())];
+                let t = fresh();
+                if let Err(p) = guard(|| put_text(&mut mem.wb, si, pos, &t, kind)) {
+                    return Verdict::fail(format!("edit/panic:{}", p.site()), p.short());
+                }
+                mem.sheets[si].raw = false;
+                let old = mem.sheets[si].cells.insert(pos, t).unwrap();
+                mem.lost.insert(old, "overwritten-string");
+            }
+            Step::Delete { m, pick, how } => {
+                let mi = pick_idx(m, n);
+                let mem = &mut members[mi];
+                let cells = mem.text_cells();
+                if cells.is_empty() {
+                    continue;
+                }
+                let (si, pos) = cells[pick_idx(pick, cells.len())];
+                let r = guard(|| {
+                    let ws = mem.wb.get_sheet_mut(&si).expect("sheet index in range");
+                    match how {
+                        0 => {
+                            ws.remove_cell((pos.1, pos.0));
+                        }
+                        1 => {
+                            ws.get_cell_mut((pos.1, pos.0)).set_blank();
+                        }
+                        _ => {
+                            ws.get_cell_mut((pos.1, pos.0)).set_value_number(42);
+                        }
+                    }
+                });
+                if let Err(p) = r {
+                    return Verdict::fail(format!("edit/panic:{}", p.site()), p.short());
+                }
+                mem.sheets[si].raw = false;
+                let old = mem.sheets[si].cells.remove(&pos).unwrap();
+                mem.lost.insert(old, "deleted-string");
+            }
+            Step::RemoveRow { m, sheet, row, n: cnt } => {
+                let mi = pick_idx(m, n);
+                let mem = &mut members[mi];
+                let si = pick_idx(sheet, mem.sheets.len());
+                let (row, cnt) = (row as u32, cnt as u32);
+                let r = guard(|| {
+                    mem.wb.get_sheet_mut(&si).expect("sheet index in range").remove_row(&row, &cnt);
+                });
+                if let Err(p) = r {
+                    return Verdict::fail(format!("edit/panic:{}", p.site()), p.short());
+                }
+                mem.sheets[si].raw = false;
+                let old = std::mem::take(&mut mem.sheets[si].cells);
+                for ((r0, c0), t) in old {
+                    if r0 < row {
+                        mem.sheets[si].cells.insert((r0, c0), t);
+                    } else if r0 < row + cnt {
+                        mem.lost.insert(t, "removed-row-string");
+                    } else {
+                        mem.sheets[si].cells.insert((r0 - cnt, c0), t);
+                    }
+                }
+            }
+            Step::RemoveSheet { m, sheet } => {
+                let mi = pick_idx(m, n);
+                let mem = &mut members[mi];
+                if mem.sheets.len() < 2 {
+                    continue;
+                }
+                let si = pick_idx(sheet, mem.sheets.len());
+                match guard(|| mem.wb.remove_sheet(si)) {
+                    Err(p) => return Verdict::fail(format!("edit/panic:{}", p.site()), p.short()),
+                    Ok(Err(e)) => return Verdict::fail("edit/remove-sheet-refused", e.to_string()),
+                    Ok(Ok(())) => {}
+                }
+                let gone = mem.sheets.remove(si);
+                for (_, t) in gone.cells {
+                    mem.lost.insert(t, "removed-sheet-string");
+                }
+            }
+            Step::AddSheet { m } => {
+                let mi = pick_idx(m, n);
+                let mem = &mut members[mi];
+                if mem.sheets.len() >= MAX_SHEETS {
+                    continue;
+                }
+                next_sheet += 1;
+                let name = format!("N{}", next_sheet);
+                match guard(|| mem.wb.new_sheet(name.clone()).map(|_| ())) {
+                    Err(p) => return Verdict::fail(format!("edit/panic:{}", p.site()), p.short()),
+                    Ok(Err(e)) => return Verdict::fail("edit/new-sheet-refused", e.to_string()),
+                    Ok(Ok(())) => {}
+                }
+                mem.sheets.push(SheetM { name, cells: BTreeMap::new(), raw: false });
+            }
+            Step::CloneWb { m } => {
+                if n >= MAX_MEMBERS {
+                    continue;
+                }
+                let mi = pick_idx(m, n);
+                let src = &members[mi];
+                let copy = Member { wb: src.wb.clone(), sheets: src.sheets.clone(), lost: src.lost.clone(), loaded: src.loaded.clone(), origin: src.origin, how_made: "clone" };
+                members.push(copy);
+                clones += 1;
+            }
+            Step::Save { m } => {
+                let mi = pick_idx(m, n);
+                saves += 1;
+                match judge_save(&members, mi, &saved_origins, obs) {
+                    Ok(o) => {
+                        if pending.is_none() {
+                            pending = o.counters;
+                        }
+                    }
+                    Err(v) => return v,
+                }
+                saved_origins.insert(members[mi].origin);
+            }
+            Step::Reload { m, lazy } => {
+                let mi = pick_idx(m, n);
+                saves += 1;
+                if !lazy {
+                    // main stratum: reloads are eager, so no save ever meets an unloaded sheet
+                    obs.excluded("stale-loaded-string/leaks-with-unloaded-sheet");
+                }
+                let out = match judge_save(&members, mi, &saved_origins, obs) {
+                    Ok(o) => o,
+                    Err(v) => return v,
+                };
+                if pending.is_none() {
+                    pending = out.counters.clone();
+                }
+                saved_origins.insert(members[mi].origin);
+                if n >= MAX_MEMBERS {
+                    continue;
+                }
+                let wb = match guard(|| reader::xlsx::read_reader(Cursor::new(&out.bytes[..]), !lazy)) {
+                    Err(p) => return Verdict::fail(format!("reload/panic:{}", p.site()), p.short()),
+                    Ok(Err(e)) => return Verdict::fail("reload/error", format!("{:?}", e)),
+                    Ok(Ok(wb)) => wb,
+                };
+                let src = &members[mi];
+                let mut sheets = src.sheets.clone();
+                for s in sheets.iter_mut() {
+                    s.raw = lazy;
+                }
+                if !lazy {
+                    // the library's own reader must show the model too (it is what the history continues on)
+                    let got: Vec<(String, BTreeMap<(u32, u32), String>)> = wb
+                        .get_sheet_collection_no_check()
+                        .iter()
+                        .map(|ws| {
+                            (
+                                ws.get_name().to_string(),
+                                ws.get_cell_collection()
+                                    .iter()
+                                    .filter(|c| c.get_value().contains("tok"))
+                                    .map(|c| ((*c.get_coordinate().get_row_num(), *c.get_coordinate().get_col_num()), c.get_value().to_string()))
+                                    .collect(),
+                            )
+                        })
+                        .collect();
+                    let want: Vec<(String, BTreeMap<(u32, u32), String>)> = sheets.iter().map(|s| (s.name.clone(), s.cells.clone())).collect();
+                    if got != want {
+                        return Verdict::fail("reload/cell-text-differs", format!("reader shows {:?}, model has {:?}", got, want));
+                    }
+                }
+                let origin = next_origin;
+                next_origin += 1;
+                // a loaded workbook starts with whatever the file's table held
+                saved_origins.insert(origin);
+                let loaded = src.tokens();
+                members.push(Member { wb, sheets, lost: src.lost.clone(), loaded, origin, how_made: if lazy { "lazy reload" } else { "reload" } });
+                reloads += 1;
+                if lazy {
+                    lazies += 1;
+                }
+            }
+        }
+    }
+    obs.class(format!("saves/{}", match saves { 0 => "0", 1 => "1", 2..=3 => "2-3", _ => "4+" }));
+    obs.class(format!("members/{}", members.len()));
+    if clones > 0 {
+        obs.class("family/has-clone");
+    }
+    if reloads > 0 {
+        obs.class("family/has-reload");
+    }
+    if lazies > 0 {
+        obs.class("family/has-lazy-reload");
+    }
+    if clones > 0 && reloads > 0 {
+        obs.class("family/clone-and-reload");
+    }
+    if let Some(v) = pending {
+        return v;
+    }
+    Verdict::Pass
+}
+
+fn check_eager(h: &History, obs: &mut Obs) -> Verdict {
+    run_history(h, obs)
+}
+
+fn check_lazy(h: &History, obs: &mut Obs) -> Verdict {
+    run_history(h, obs)
 }
